@@ -1,3 +1,5 @@
+//go:build verif
+
 package zz_verif
 
 import (
@@ -42,3 +44,5 @@ func H_C16() {
 	vx.Assert("C16", sameSet(hashSet(A.Heads().Slice()), refHeads(A.GetEntries().Slice())), "heads of truncated set")
 	vx.Cover("c16-done")
 }
+
+var _ = register("H_C16", H_C16)
